@@ -4,9 +4,11 @@ import (
 	"bytes"
 	"errors"
 	"fmt"
+	"github.com/sirupsen/logrus"
 	"io"
 	"net"
 	"os"
+	"runtime"
 	"strings"
 	"sync"
 	"syscall"
@@ -572,10 +574,35 @@ func serverCloseDuringHandshakes(r *vh.Runner, c *vh.Case, i int) {
 		}()
 	}
 	closeAt := time.Duration(rng.Intn(4000)) * time.Microsecond
+	if i%3 == 0 {
+		// Close is called at the very moment a worker publishes a finished
+		// handshake: the server's own debug line in finishHandshake is the
+		// trigger (the worker is then past its state check), and the worker
+		// yields a few hundred times so that Close gets as far as it can
+		closeAt = -1
+		var once sync.Once
+		lg := logrus.StandardLogger()
+		oldLevel, oldHooks := lg.GetLevel(), lg.ReplaceHooks(make(logrus.LevelHooks))
+		lg.SetLevel(logrus.DebugLevel)
+		lg.AddHook(&msgHook{prefix: "server: finishing handshake", f: func() {
+			once.Do(func() {
+				wg.Add(1)
+				go func() { defer wg.Done(); w.Server.Close() }()
+				for k := 0; k < 400; k++ {
+					runtime.Gosched()
+				}
+			})
+		}})
+		defer func() { lg.ReplaceHooks(oldHooks); lg.SetLevel(oldLevel) }()
+	}
 	wg.Add(1)
 	go func() {
 		defer wg.Done()
-		time.Sleep(closeAt)
+		if closeAt < 0 {
+			time.Sleep(20 * time.Millisecond) // in case no handshake got that far
+		} else {
+			time.Sleep(closeAt)
+		}
 		w.Server.Close()
 	}()
 	done := bub.Go(wg.Wait)
@@ -591,4 +618,18 @@ func serverCloseDuringHandshakes(r *vh.Runner, c *vh.Case, i int) {
 	r.Count("handles_accepted_before_close", int64(accepted))
 	amu.Unlock()
 	r.Nontrivial(fmt.Sprintf("scdh|%d", i))
+}
+
+// msgHook runs f when a log line with the given prefix is emitted.
+type msgHook struct {
+	prefix string
+	f      func()
+}
+
+func (h *msgHook) Levels() []logrus.Level { return logrus.AllLevels }
+func (h *msgHook) Fire(e *logrus.Entry) error {
+	if strings.HasPrefix(e.Message, h.prefix) {
+		h.f()
+	}
+	return nil
 }
